@@ -553,6 +553,9 @@ package router
 //@   callsite mustHaveRespB: [C09:udp-size-arg] arg3 == false && arg4 >= 512 && noOPT(m.Additionals) ==> arg4 == 512
 //@   callsite mustHaveRespB: [C09:udp-size-arg-opt] forall(k, 0, len(m.Additionals), lastOPTAt(m, k) ==> arg4 == (int(ptrOf(m.Additionals[k], dnsmsg.ResourceHdr).Class) < 512 ? 512 : int(ptrOf(m.Additionals[k], dnsmsg.ResourceHdr).Class)))
 //@   callsite writeResp: [C09:udp-limit] len(arg1) >= 12 && len(arg1) <= clientUdpSize
+//@   callsite handleServerReq: [C03:this-query-is-handled] arg0 == s.r && arg1 == m && arg2 == rc
+//@   callsite mustHaveRespB: [C03:the-answer-to-this-query-is-what-is-sent] arg0 == m && arg1 == rc.Response.Msg
+//@   callsite writeResp: [C03:answer-goes-to-the-client-that-asked] arg0 == s && arg2 == rc.RemoteAddr && arg3 == oobAddr
 //@   loop 1:
 //@     invariant clientUdpSize >= 0 && clientUdpSize <= 65535
 //@     invariant -1 <= lastOpt && lastOpt <= rangeindex
@@ -571,6 +574,9 @@ package router
 //@   ensures [C20:response-is-its-own-object] rc.Response.Msg != nil && rc.Response.Msg != m && fresh(rc.Response.Msg) && wfMsg(rc.Response.Msg)
 //@   ensures [C20:response-shares-no-section-with-the-query] sepMsgs(rc.Response.Msg, m)
 //@   callsite Write: [C03,C13:one-framed-write] len(arg1) >= 14 && len(arg1) - 2 <= 65535 && BE16(arg1, 0) == uint16(len(arg1) - 2)
+//@   callsite handleServerReq: [C03:this-query-is-handled] arg0 == s.r && arg1 == m && arg2 == rc
+//@   callsite mustHaveRespB: [C03:the-answer-to-this-query-is-what-is-sent] arg0 == m && arg1 == rc.Response.Msg && arg3 == true
+//@   callsite Write: [C03:answer-goes-to-the-connection-that-asked] arg0 == c
 
 // the refresh goroutine: releases its private question and the reservation exactly once, on every path
 //@ closure router.asyncSingleFlightPrefetch$1
@@ -978,6 +984,9 @@ package router
 //@   modifies *
 //@   ensures [C03:exactly-one-write] nAW == 1
 //@   callsite AsyncWrite: [C03,C13:one-framed-write] len(arg1) >= 14 && len(arg1) - 2 <= 65535 && BE16(arg1, 0) == uint16(len(arg1) - 2)
+//@   callsite handleServerReq: [C03:this-query-is-handled] arg0 == e.r && arg1 == m
+//@   callsite mustHaveRespB: [C03:the-answer-to-this-query-is-what-is-sent] arg0 == m && arg1 == rc.Response.Msg && arg3 == true
+//@   callsite AsyncWrite: [C03:answer-goes-to-the-connection-that-asked] arg0 == c
 
 // ---- server_http_gohttp.go -------------------------------------------------------------------------------
 // listen: a stream listener on exactly the configured address - an abstract unix socket when it starts with "@",
@@ -1160,6 +1169,8 @@ package router
 //@   callsite readReqMsg?: [C15:only-admitted-requests-are-read] nAsk == 1 && gAdm == nil
 //@   callsite handleServerReq?: [C15:only-admitted-requests-are-handled] nAsk == 1 && gAdm == nil && arg0 == h.r
 //@   callsite mustHaveRespB?: [C03:fallback-answer] arg2 == dnsmsg.RCodeRefused && arg3 == false && arg4 == 65535
+//@   callsite handleServerReq?: [C03:this-query-is-handled] arg1 == m && arg2 == rc
+//@   callsite mustHaveRespB?: [C03:the-answer-to-this-query-is-what-is-sent] arg0 == m && arg1 == rc.Response.Msg
 //@   callsite Write?: [C03:the-packed-response-is-the-body] arg1 == gB && len(arg1) >= 12
 
 // gnetServer.OnOpen (gnet TCP listener): every new connection is charged 3 to its remote address; it stays open
@@ -1262,6 +1273,8 @@ package router
 //@   ensures [C03:at-most-one-answer] nH <= 1 && nW == nH
 //@   callsite handleServerReq?: [C03:this-router] arg0 == h.r
 //@   callsite mustHaveRespB?: [C03,C09:fallback-answer-http-limit] arg2 == dnsmsg.RCodeRefused && arg3 == false && arg4 == 65535
+//@   callsite handleServerReq?: [C03:this-query-is-handled] arg1 == m && arg2 == rc
+//@   callsite mustHaveRespB?: [C03:the-answer-to-this-query-is-what-is-sent] arg0 == m && arg1 == rc.Response.Msg
 //@   callsite SetBody?: [C03:the-packed-response-is-the-body] arg1 == gB && len(arg1) >= 12
 
 // udpServer.startThreadOthers (portable read loop): every datagram read is handed to handleMsg once, as exactly
@@ -1454,6 +1467,8 @@ package router
 //@   callsite Write?: [C03,C13:one-framed-write] arg0 == stream && arg1 == gB && len(arg1) >= 14 && len(arg1) - 2 <= 65535 && BE16(arg1, 0) == uint16(len(arg1) - 2)
 //@   callsite ReleaseMsg?: [C20:released-after-the-answer] nW == 1
 //@   callsite mustHaveRespB?: [C03:fallback-answer] arg2 == dnsmsg.RCodeRefused && arg3 == true
+//@   callsite handleServerReq?: [C03:this-query-is-handled] arg0 == r && arg1 == m && arg2 == rc
+//@   callsite mustHaveRespB?: [C03:the-answer-to-this-query-is-what-is-sent] arg0 == m && arg1 == rc.Response.Msg
 // only the READ of the query is bounded (1 s); no deadline is put on writing the answer, which may take as long as
 // the router's own request deadline allows
 //@   callsite SetReadDeadline: [C03:only-the-read-of-the-query-is-bounded] arg0 == stream
